@@ -333,19 +333,26 @@ def case_large_scale(emit, n, npt, log2_scale, n_updates):
     X = mb.lift_array(F, [[S * t for t in r] for r in X_q])
     rng = mb.rng_for("vals:" + label)
     it = sh.interpolation(xb.copy(), X.copy())
-    q = sh.m.Quadratic(it, mb.lift_array(F, [mb.rand_q(rng) for _ in range(npt)]), False)
+    vals = [mb.rand_q(rng) for _ in range(npt)]
+    q = sh.m.Quadratic(it, mb.lift_array(F, list(vals)), False)
     for u in range(n_updates):
         k_new = (0, npt - 1)[u % 2]
         if mb.all_zero(F, q._i_hess[k_new])[0]:
             raise mb.Unsupported(f"large-length-scale scenario vacuous: implicit weight {k_new} is zero before update {u}")
         x_new = mb.lift_array(F, mb.rational_new_point(label + f"u{u}", it.x_base, it.xpt, k_new, scale=S))
         vd = mb.lift_array(F, [0] * npt)
-        vd[k_new] = mb.rand_q(rng) - q(x_new, it)                     # new value of order one, generic residual
+        vals[k_new] = mb.rand_q(rng)
+        vd[k_new] = vals[k_new] - q(x_new, it)                        # new value of order one, generic residual
         dir_old = np.copy(it.xpt[:, k_new])
         it.xpt[:, k_new] = x_new - it.x_base
         ill = q.update(it, k_new, dir_old, vd)
         if bool(ill):
             raise mb.Unsupported("large-length-scale scenario: ill_conditioned reported True under SOLVE")
+    # the updated model interpolates every recorded value at this scale too (the weight of the replaced point, of size ~ scale**-4,
+    # must have been forwarded to the explicit Hessian however small it is)
+    ok_i, note_i = mb.same(F, arr([q(it.point(k), it) for k in range(npt)]), mb.lift_array(F, list(vals)))
+    emit("C13.update_interpolates.large_length_scale" + tag, ok_i,
+         note_i and "model value - recorded value at the interpolation points after the updates: " + note_i)
     s = F.zero
     for k in range(npt):
         s = s + q._i_hess[k]
